@@ -158,4 +158,5 @@ def main():
     print(json.dumps({"results": out}))
 
 
-main()
+if __name__ == "__main__":
+    main()
